@@ -513,6 +513,7 @@ def rule_literal(ctx, px):
     ctx.ob(R, cm.rel, f"{f.short} :: any other type fails generation", closed, "", f.node.lineno)
     SUFFIX = f"{{'U' * isinstance({ty}, pydsdl.UnsignedIntegerType)}}{{'L' * ({ty}.bit_length > 16)}}{{'L' * ({ty}.bit_length > 32)}}"
     n_min = 0
+    bare_min = []
     for kind, terms, shown, conds, r, env_r in rets:
         if kind == "BooleanType":
             ok = sorted(shown) == sorted(["{language.valuetoken_true}", "{language.valuetoken_false}"]) or \
@@ -531,6 +532,14 @@ def rule_literal(ctx, px):
                 for sh, ac in groups[is_min]:
                     facts = terms + list(ac)
                     m = re.fullmatch(r"\(\{" + re.escape(val) + r" \+ 1\}(?P<a>.*) - 1(?P<b>.*)\)", sh) if is_min else re.fullmatch(r"\{" + re.escape(val) + r"\}(?P<a>.*)", sh)
+                    if is_min and m is None:
+                        # the same spelling without its own parentheses: a binary expression - fine wherever it is printed as a whole
+                        # operand (initializer, comparison, assignment), not as the body of an object-like macro (judged below)
+                        m = re.fullmatch(r"\{" + re.escape(val) + r" \+ 1\}(?P<a>.*) - 1(?P<b>.*)", sh)
+                        if m is not None and m.group("a") != m.group("b"):
+                            m = None
+                        if m is not None:
+                            bare_min.append(r.lineno)
                     if m is None or (is_min and m.group("a") != m.group("b")):
                         good, why = False, f"rendered as {sh}"
                         break
@@ -614,6 +623,25 @@ def rule_literal(ctx, px):
                    good, "" if good else why, r.lineno)
     ctx.ob(R, cm.rel, f"{f.short} [int] :: -2**63 has its own spelling (its magnitude fits no signed literal: the compiler would make it unsigned and positive)", n_min >= 1,
            "" if n_min else "`-9223372036854775808LL` is read as the negation of an unsigned literal: the constant is positive and every use is diagnosed", f.node.lineno)
+    # an object-like macro is pasted into arbitrary expressions: its body is one primary expression - the literal's own parentheses or
+    # the macro's
+    if bare_min:
+        from nvsa import j2front as _jf
+        ts_ = _jf.TemplateSet(ctx.root)
+        N_ = ts_.nodes
+        t_ = ts_.get("c", "definitions.j2")
+        sites = []
+        for o in t_.ast.find_all(N_.Output):
+            for i_, e_ in enumerate(o.nodes):
+                if isinstance(e_, N_.Filter) and e_.name == "constant_value":
+                    before = "".join(x_.data if isinstance(x_, N_.TemplateData) else "\x00" for x_ in o.nodes[:i_])
+                    after = o.nodes[i_ + 1].data if i_ + 1 < len(o.nodes) and isinstance(o.nodes[i_ + 1], N_.TemplateData) else ""
+                    line = before.rsplit("\n", 1)[-1]
+                    if "#define" in line or "# define" in line:
+                        sites.append((o.lineno, line.rstrip().endswith("(") and after.lstrip().startswith(")")))
+        ok = bool(sites) and all(p_ for _l, p_ in sites)
+        ctx.ob(R, t_.rel, "c: the constant's macro body is parenthesised (the literal of the most negative value is a bare `a - b`)", ok,
+               "" if ok else "`#define X -9223372036854775807LL - 1LL`: `X / 2`, `-1 - X`, `X * y` bind to the wrong operand", sites[0][0] if sites else None)
     # delegation
     for modname, fname, want in (("nunavut.lang.c", "filter_constant_value", "filter_literal"), ("nunavut.lang.cpp", "filter_constant_value", "c_filter_literal"),
                                  ("nunavut.lang.cpp", "filter_literal", "c_filter_literal")):
